@@ -606,7 +606,16 @@ func execBody(r *Recipe, env *Env, shared []*jen.Statement) (hist []Outcome) {
 					env.RenderHook(true)
 					defer env.RenderHook(false)
 				}
-				o.Out = []byte(f.GoString())
+				func() {
+					// GoString panics where Render returns an error (documented): same outcome class
+					defer func() {
+						if p := recover(); p != nil {
+							o.OK = false
+							o.Err = fmt.Sprint(p)
+						}
+					}()
+					o.Out = []byte(f.GoString())
+				}()
 			case "render", "render_frag", "render_frag_nofile", "render_group", "render_group_nofile", "render_body":
 				o.Render = true
 				o.NoFormat = f.NoFormat
